@@ -142,7 +142,7 @@ class Gen:
     """Generates programs the unchanged compiler accepts most of the time and compiles correctly
     (constructs with a listed known finding are avoided unless `probe` names them)."""
 
-    def __init__(self, rng, placement="zp", wide=True, shorts=False, arrays=True, calls=True, regs=True, probe=()):
+    def __init__(self, rng, placement="zp", wide=True, shorts=False, arrays=True, calls=True, regs=True, probe=(), inline_rate=0.3, gotos=False):
         self.rng = rng
         self.p = Program()
         self.placement = placement
@@ -152,6 +152,9 @@ class Gen:
         self.use_calls = calls
         self.use_regs = regs
         self.probe = set(probe)
+        self.inline_rate = inline_rate
+        self.gotos = gotos
+        self.nlabels = 0
         self.chars = []
         self.shorts = []
         self.arrays = []
@@ -357,14 +360,24 @@ class Gen:
         self.setup()
         self.counters_free = list(self.counters)
         if self.use_calls and r.random() < 0.6:
-            for i in range(r.randint(1, 2)):
+            for i in range(r.randint(1, 3)):
                 name = "f%d" % i
                 saved, self.counters_free = self.counters_free, []   # callees do not use the loop counters
                 body = self.stmts(r.randint(1, 4))
+                if r.random() < 0.25:
+                    body.insert(r.randrange(len(body) + 1), ('if', self.cmp(), ('block', [('return', None)]), None))
                 self.counters_free = saved
-                self.p.funcs.append(("void", name, [], body, False))
+                self.p.funcs.append(("void", name, [], body, r.random() < self.inline_rate))
                 self.funcs.append(name)
         body = self.stmts(nstmts or r.randint(2, 8))
+        if self.gotos and r.random() < 0.6:
+            # forward goto over a few statements
+            self.nlabels += 1
+            lab = "lab%d" % self.nlabels
+            i = r.randrange(len(body))
+            j = r.randrange(i, len(body))
+            body.insert(j + 1, ('raw', "%s: %s = %s;" % (lab, r.choice(self.chars), r.choice(self.chars))))
+            body.insert(i, ('if', self.cmp(), ('block', [('raw', "goto %s;" % lab)]), None))
         self.p.funcs.append(("void", "main", [], body, False))
         self.p.render()
         return self.p
